@@ -17,18 +17,19 @@
 (***************************************************************************)
 EXTENDS Integers, Sequences, FiniteSets
 
-CONSTANT Seeds      \* sequence of [id, dec, len, mlen, ntab, ngid, ndict]
+CONSTANT Seeds      \* sequence of [id, dec, len, mlen, ntab, ngid, ndict, ncnt, ncpair]
 
 Decoders == {"sfnt", "header", "cff", "cmap", "glyf", "GSUB", "GPOS", "GDEF", "coverage", "coverset",
              "classdef", "name", "head", "hmtx", "maxp", "os2", "post", "kern"}
 
 \* ------------------------------------------------------------------ the fault plan
-Kinds == <<"orig", "trunc", "word", "flip", "ff", "inc", "dec", "pair", "dict", "drop">>
+Kinds == <<"orig", "trunc", "word", "flip", "ff", "inc", "dec", "pair", "dict", "count", "drop">>
 KindSet == {Kinds[i] : i \in DOMAIN Kinds}
 NumValues == 10
 NumGidValues == 3
 NumTriggers == 3
 NumDictValues == 6
+NumCountValues == 2
 \* the replacement values of kind "dict" as signed 32-bit integers (hi word, lo word omitted: TLC integers
 \* are 32-bit, so the values are written as differences from 2^31 - 1 = 2147483647)
 DictValue(v, partner) ==
@@ -58,6 +59,11 @@ WordValue(v, len) ==
 \*          FDSelect, in the Top DICT, every Font DICT and every Private DICT) replaced by each of NumDictValues
 \*          values: 0x7FFFFFFF, 0x7FFFFFF0, -2^31, -1, and the two values that make operand + partner
 \*          (size + offset, Subrs + offset of its Private DICT) equal to 2^31-1 and to 2^31
+\*   count  allocation before validation: the harness's structure walker lists the ncnt 16-bit COUNT fields of the
+\*          seed (script/feature/lookup lists, every GSUB/GPOS subtable format with its nested tables, coverage,
+\*          classdef, cmap, kern, name, post, hmtx, maxp, glyph headers, CFF INDEX counts) and the ncpair pairs of
+\*          counts that belong to the same structure; every count alone, and every such pair together, is set to
+\*          0x7FFF and to 0xFFFF (NumCountValues) while the table keeps its length
 \*   drop   whole fonts: every table removed from the directory in turn
 Planned(s, kind) ==
   CASE kind = "orig" -> 1
@@ -65,6 +71,7 @@ Planned(s, kind) ==
     [] kind = "word" -> s.mlen \div 2
     [] kind = "pair" -> s.ngid * NumGidValues * NumTriggers
     [] kind = "dict" -> s.ndict * NumDictValues
+    [] kind = "count" -> (s.ncnt + s.ncpair) * NumCountValues
     [] kind = "drop" -> s.ntab
 
 Cell(s, kind, v) == [seed |-> s.id, kind |-> kind, v |-> v, n |-> Planned(s, kind)]
@@ -72,7 +79,7 @@ CellsOf(s) ==
   LET all == <<Cell(s, "orig", 0), Cell(s, "trunc", 0)>>
              \o [v \in 1..NumValues |-> Cell(s, "word", v)]
              \o <<Cell(s, "flip", 0), Cell(s, "ff", 0), Cell(s, "inc", 0), Cell(s, "dec", 0), Cell(s, "pair", 0),
-                 Cell(s, "dict", 0), Cell(s, "drop", 0)>>
+                 Cell(s, "dict", 0), Cell(s, "count", 0), Cell(s, "drop", 0)>>
   IN SelectSeq(all, LAMBDA c : c.n > 0)
 
 RECURSIVE PlanFrom(_)
@@ -85,6 +92,8 @@ SeedsOK ==
        /\ Seeds[i].len > 0 /\ Seeds[i].mlen > 0 /\ Seeds[i].mlen <= Seeds[i].len /\ Seeds[i].ntab >= 0 /\ Seeds[i].ngid >= 0
        /\ (Seeds[i].dec # "sfnt" => Seeds[i].ntab = 0 /\ Seeds[i].ngid = 0)
        /\ Seeds[i].ndict >= 0 /\ (Seeds[i].dec # "cff" => Seeds[i].ndict = 0)
+       /\ Seeds[i].ncnt >= 0 /\ Seeds[i].ncpair >= 0
+       /\ 2 * Seeds[i].ncpair <= Seeds[i].ncnt * (Seeds[i].ncnt - 1)      \* pairs of distinct counts
   /\ \A d \in Decoders : \E i \in DOMAIN Seeds : Seeds[i].dec = d       \* every decoder of the property has a seed
 
 \* ------------------------------------------------------------------ the contract
